@@ -21,7 +21,7 @@ TIERS = {
 FAULT_KINDS = []
 PROBES = ["unset_strict", "unset_nonstrict", "secret_planted_and_unset_read", "quoted_reserved_name", "digit_initial_name", "non_ascii_value",
           "newline_value", "empty_value", "field_named_env", "let_env", "read_in_library", "empty_environment", "var_named_env",
-          "env_passed_as_value", "tiny_environment"]
+          "env_passed_as_value", "tiny_environment", "failing_file_built_first", "let_env_variant"]
 PROBES_OPTIONAL = False
 RESERVED = ["let", "import", "self", "mod", "out", "assert", "true", "false", "NULL", "select", "func", "module", "map", "filter", "reduce",
             "include", "fail", "not", "in", "is", "as", "env", "convert", "constraint", "TRACE"]
@@ -152,8 +152,30 @@ def generate(rng, tier, idx):
     if any(r["pos"] in ("func_arg", "module_arg", "tuple_holding_env") for r in reads) and readable:
         e = rng.choice(readable)
         reads.append({"name": e["name"], "set": True, "pos": "quoted" if needs_quote(e["name"]) else "top"})
-    return {"env": env, "strict": strict, "reads": reads, "fields": rng.chance(40), "let_env": rng.chance(20),
+    return {"env": env, "strict": strict, "reads": reads, "fields": rng.chance(40),
+            "let_env": rng.choice(LET_ENV_FORMS) if rng.chance(25) else None,
+            # history dimension: another file of the same invocation failed before this one is built
+            "pre_fail": rng.choice(PRE_FAILS) if rng.chance(20) else None,
             "field_uid": "fld" + rng.token(8)}
+
+
+LET_ENV_FORMS = ["plain", "annotated", "in_module", "in_module_annotated", "after_use", "constraint_stmt"]
+LET_ENV_SRC = {
+    "plain": 'let env = {HOME = "shadowed"};\nout json {v = env.HOME};\n',
+    "annotated": 'let env :: {HOME = ""} = {HOME = "shadowed"};\nout json {v = env.HOME};\n',
+    "in_module": 'let m = module {a = 1} => { let env = {HOME = "shadowed"}; let r = env.HOME; };\nout json {v = m{}.r};\n',
+    "in_module_annotated": 'let m = module {a = 1} => { let env :: {HOME = ""} = {HOME = "shadowed"}; let r = env.HOME; };\nout json {v = m{}.r};\n',
+    "after_use": 'let first = env.HOME;\nlet env = {HOME = "shadowed"};\nout json {v = env.HOME};\n',
+    "constraint_stmt": 'constraint env = "a" | "b";\nout json {v = env.HOME};\n',
+}
+PRE_FAILS = ["runtime_fail", "unset_var", "type_error", "syntax_error", "missing_import"]
+PRE_FAIL_SRC = {
+    "runtime_fail": 'let boom = fail "pre-file fails";\n',
+    "unset_var": "let nope = env.UCGSIM_PRE_UNSET;\n",
+    "type_error": 'let bad = 1 + "a";\n',
+    "syntax_error": "let bad = ;\n",
+    "missing_import": 'let gone = import "./no-such-file.ucg";\n',
+}
 
 
 def sel(name):
@@ -219,18 +241,33 @@ def execute(world, sb, res):
         sb.write("proj/lib.ucg", lib)
         res.probe("read_in_library")
     flags = [] if world["strict"] else ["--no-strict"]
-    inv = sb.invoke(flags + ["build", "main.ucg"], cwd="proj", env=envmap)
-    out = inv.out
+    pre = world.get("pre_fail")
+    if pre:
+        sb.write("proj/pre.ucg", PRE_FAIL_SRC[pre])
+        res.probe("failing_file_built_first")
+        inv = sb.invoke(flags + ["build", "pre.ucg", "main.ucg"], cwd="proj", env=envmap)
+        # what the process says about main.ucg is everything after its `Building` line
+        cut = inv.out.find("Building main.ucg")
+        out = inv.out[cut:] if cut >= 0 else ""
+        if cut < 0:
+            res.violate("C18.not-built", pre, "main.ucg was not built after pre.ucg failed\n%s" % inv.out[-800:])
+            return
+        main_failed = len([l for l in out.split("\n")[1:] if l.strip()]) > 0
+        status = 1 if main_failed else 0
+    else:
+        inv = sb.invoke(flags + ["build", "main.ucg"], cwd="proj", env=envmap)
+        out = inv.out
+        status = inv.status
     art = None
     if sb.exists("proj/main.json"):
         try:
             art = json.loads(sb.read("proj/main.json").decode("utf-8"))
         except Exception:
             art = "undecodable"
-    res.history.append({"argv": inv.argv, "env_names": sorted(envmap), "status": inv.status, "signal": inv.signal, "out": out, "artifact": art})
+    res.history.append({"argv": inv.argv, "env_names": sorted(envmap), "status": inv.status, "main_status": status, "signal": inv.signal, "out": out, "artifact": art})
     ctx = "environment: %s\nprogram:\n%s--- ucg %s: exit=%s signal=%s\n%s" % (
         json.dumps({k: envmap[k] for k in sorted(envmap)}, ensure_ascii=True)[:1500], main + ("lib.ucg:\n" + lib if lib else ""),
-        " ".join(inv.argv), inv.status, inv.signal, out[-1500:])
+        " ".join(inv.argv), status, inv.signal, out[-1500:])
     if inv.timed_out:
         res.violate("C18.terminates", "build", "build did not terminate\n" + ctx)
         return
@@ -266,10 +303,10 @@ def execute(world, sb, res):
         res.key(["field_named_env", world["strict"]], True)
 
     # ---- leak scan over the whole output stream (all modes) -----------------------------------
-    leaked = [e for e in world["env"] if e["tok"] in out and e["cls"] != "empty"]
+    leaked = [e for e in world["env"] if e["tok"] in inv.out and e["cls"] != "empty"]   # the whole stream, the failing pre-file included
     if leaked:
         sec = [e["name"] for e in leaked if e["secret"]]
-        res.violate("C18.leak", "diagnostic" if inv.status != 0 else "stream",
+        res.violate("C18.leak", "diagnostic" if status != 0 else "stream",
                     "the output discloses the value of %s%s, which the failing expression did not name\n%s" % (
                         [e["name"] for e in leaked][:6], " (planted secrets: %s)" % sec if sec else "", ctx))
     if unset and any(e["secret"] for e in world["env"]):
@@ -277,8 +314,8 @@ def execute(world, sb, res):
 
     if world["strict"] and first_unset is not None:
         res.probe("unset_strict")
-        if inv.status != 1:
-            res.violate("C18.unset-strict", "not-an-error", "reading the unset variable %s in strict mode did not fail the build (exit %s)\n%s" % (first_unset["name"], inv.status, ctx))
+        if status != 1:
+            res.violate("C18.unset-strict", "not-an-error", "reading the unset variable %s in strict mode did not fail the build (exit %s)\n%s" % (first_unset["name"], status, ctx))
         elif first_unset["name"] not in out:
             res.violate("C18.unset-strict", "name-missing", "the diagnostic does not name the unset variable %s\n%s" % (first_unset["name"], ctx))
         if art is not None:
@@ -286,7 +323,7 @@ def execute(world, sb, res):
     else:
         if unset:
             res.probe("unset_nonstrict")
-        if inv.status != 0 or not isinstance(art, dict):
+        if status != 0 or not isinstance(art, dict):
             res.violate("C18.build-fails", "strict" if world["strict"] else "nonstrict", "a program that only reads %s variables failed to build\n%s" % (
                 "set" if not unset else "set and (non-strict) unset", ctx))
         else:
@@ -310,15 +347,20 @@ def execute(world, sb, res):
                         break
 
     # ---- `let env = ...` must not build --------------------------------------------------------
-    if world["let_env"]:
+    form = world.get("let_env")
+    if form is True:
+        form = "plain"
+    if form:
         res.probe("let_env")
-        sb.write("proj/shadow.ucg", 'let env = {HOME = "shadowed"};\nout json {v = env.HOME};\n')
+        if form != "plain":
+            res.probe("let_env_variant")
+        sb.write("proj/shadow.ucg", LET_ENV_SRC[form])
         inv2 = sb.invoke(flags + ["build", "shadow.ucg"], cwd="proj", env=envmap)
         res.history.append({"argv": inv2.argv, "status": inv2.status, "out": inv2.out})
-        res.key(["let_env", world["strict"]], True)
+        res.key(["let_env", form, world["strict"]], True)
         if inv2.status == 0 or sb.exists("proj/shadow.json"):
-            res.violate("C18.shadow", "let", "`let env = ...` built successfully (exit %s, artifact: %s)\n%s" % (
-                inv2.status, sb.read("proj/shadow.json") if sb.exists("proj/shadow.json") else None, inv2.out))
+            res.violate("C18.shadow", "let", "a binding named env (%s form) built successfully (exit %s, artifact: %s)\n%s--- \n%s" % (
+                form, inv2.status, sb.read("proj/shadow.json") if sb.exists("proj/shadow.json") else None, LET_ENV_SRC[form], inv2.out))
         leaked2 = [e for e in world["env"] if e["tok"] in inv2.out and e["cls"] != "empty"]
         if leaked2:
             res.violate("C18.leak", "diagnostic", "the `let env` diagnostic discloses %s\n%s" % ([e["name"] for e in leaked2], inv2.out[-800:]))
@@ -335,8 +377,10 @@ def shrink_candidates(world):
             yield dict(w, env=w["env"][:i] + w["env"][i + 1:])
     if w["fields"]:
         yield dict(w, fields=False)
-    if w["let_env"]:
-        yield dict(w, let_env=False)
+    if w.get("let_env"):
+        yield dict(w, let_env=None)
+    if w.get("pre_fail"):
+        yield dict(w, pre_fail=None)
     for i, r in enumerate(w["reads"]):
         if r["pos"] not in ("top", "quoted"):
             yield dict(w, reads=w["reads"][:i] + [dict(r, pos="quoted" if needs_quote(r["name"]) else "top")] + w["reads"][i + 1:])
